@@ -289,3 +289,32 @@ def args_problem(tr, args):
 
 def args_recorded(tr, args):
     return args_problem(tr, args) is None
+
+
+def enumerate_ref(prog, vals, choices=None, max_leaves=20000):
+    """Yields reference Results over all completions (discrete programs only)."""
+    stack = [[]]
+    leaves = 0
+    while stack:
+        prefix = stack.pop()
+        pos = [0]
+        log = []
+
+        def chooser(path, idx, dist, params):
+            sup = R.support(dist, params)
+            if sup is None:
+                raise ValueError("enumerate_ref: continuous site " + pstr(path))
+            i = pos[0]
+            k = prefix[i] if i < len(prefix) else 0
+            pos[0] += 1
+            log.append(len(sup))
+            return sup[k]
+
+        res = R.run(prog, vals, choices=choices, chooser=chooser)
+        leaves += 1
+        if leaves > max_leaves:
+            raise OverflowError("too many completions")
+        for i in range(len(prefix), len(log)):
+            for alt in range(1, log[i]):
+                stack.append(prefix + [0] * (i - len(prefix)) + [alt])
+        yield res
